@@ -10,3 +10,4 @@ func newVP4Env(in *vInst, conf *Conf) *vP4Env { panic("UP4 harness not built yet
 func (e *vP4Env) close()                      {}
 func (e *vP4Env) nwrites() int                { return 0 }
 func (e *vP4Env) digest(rn *vRenamer) string  { return "" }
+func (e *vP4Env) takePacketOuts() [][]byte    { return nil }
